@@ -275,7 +275,10 @@ class RaggedArray(IndexableArray, np.lib.mixins.NDArrayOperatorsMixin):
         # hack to fix problem that reduceat does not give identity when index i == index i+1 (empty rows)
         # not necessary when ufunc does not have identity
         if ufunc.identity is not None:
-            result[ra._shape.lengths == 0] = np.asarray(ufunc.identity).astype(result.dtype)
+            identity = np.asarray(ufunc.identity).astype(result.dtype)
+            result[ra._shape.lengths == 0] = identity
+            # numpy's reduce starts every row from the identity; ufunc(identity, x) is not x for gcd, hypot, ... (or -0.0)
+            result = ufunc(identity, result)
 
         return result
 
